@@ -28,7 +28,7 @@ theorem c18_queue_linearizable (hn : 0 < n) :
         ∨ (∃ v id len, s.thr t = .pPublish v id len ∧ abs (step s t) = abs s ++ [v] ∧ (abs s).length < s.N
               ∧ (step s t).thr t = .pLen id)
         ∨ (∃ id idx g, s.thr t = .rPub id idx g ∧ abs (step s t) = abs s ++ [s.buf idx] ∧ (abs s).length < s.N
-              ∧ ∃ r, (step s t).thr t = .done (.pubIdx (some r)))
+              ∧ (step s t).thr t = .rLen g)
         ∨ (∃ id v, s.thr t = .cRelease id v ∧ abs s = v :: abs (step s t) ∧ (step s t).thr t = .done (.got v))) ∧
       -- calls and acknowledgements are invisible
       (∀ a, (∀ t, a ≠ .step t) → abs (apply s a) = abs s) ∧
